@@ -362,7 +362,116 @@ func genWorld(seed uint64, rich bool) *world {
 	for _, s := range w.sigs {
 		assign(s, "sig")
 	}
+	w.editAfterConstruction()
 	return w
+}
+
+// editAfterConstruction changes entities that are already in use through their setters, with non-default values:
+// what a save must carry is the current state of every field, not what the constructors computed.
+func (w *world) editAfterConstruction() {
+	r := w.r
+	for _, t := range w.types {
+		if !r.chance(45) {
+			continue
+		}
+		w.count("edited-signal-type")
+		if r.chance(60) {
+			t.SetMin(float64(r.rangeInt(-500, 50)) + []float64{0, 0.5, 0.25}[r.below(3)])
+		}
+		if r.chance(60) {
+			t.SetMax(float64(r.rangeInt(51, 100000)) + []float64{0, 0.5}[r.below(2)])
+		}
+		if r.chance(40) {
+			t.SetScale([]float64{0.5, 2, 0.001, -1, 10}[r.below(5)])
+		}
+		if r.chance(40) {
+			t.SetOffset([]float64{-40, 0.5, 100, 1e6}[r.below(4)])
+		}
+		if r.chance(30) {
+			t.UpdateSigned(!t.Signed())
+		}
+		if r.chance(30) {
+			t.SetName(w.name("typ_renamed"))
+		}
+	}
+	for _, u := range w.units {
+		if r.chance(50) {
+			u.SetKind(acmelib.SignalUnitKind(r.below(4)))
+			u.SetSymbol([]string{"A", "rpm", "m/s^2", ""}[r.below(4)])
+			if r.chance(50) {
+				u.SetName(w.name("unit_renamed"))
+			}
+			w.count("edited-signal-unit")
+		}
+	}
+	for _, e := range w.enums {
+		if r.chance(40) {
+			e.UpdateName(w.name("enum_renamed"))
+			w.count("edited-signal-enum")
+		}
+		for _, v := range e.Values() {
+			if r.chance(20) {
+				if err := v.UpdateName(w.name("VAL_renamed")); err == nil {
+					w.count("edited-enum-value-name")
+				}
+			}
+		}
+	}
+	for _, b := range w.buses {
+		if r.chance(30) {
+			if err := b.UpdateName(w.name("bus_renamed")); err == nil {
+				w.count("edited-bus-name")
+			}
+		}
+		if r.chance(30) {
+			b.SetBaudrate([]int{250000, 800000, 1, 4294967295}[r.below(4)])
+		}
+	}
+	for _, nd := range w.nodes {
+		if r.chance(25) {
+			if err := nd.UpdateName(w.name("node_renamed")); err == nil {
+				w.count("edited-node-name")
+			}
+		}
+		if r.chance(20) {
+			if err := nd.UpdateID(acmelib.NodeID(20 + r.below(200))); err == nil {
+				w.count("edited-node-id")
+			}
+		}
+	}
+	for _, m := range w.msgs {
+		if r.chance(25) {
+			if err := m.UpdateName(w.name("msg_renamed")); err == nil {
+				w.count("edited-message-name")
+			}
+		}
+		if r.chance(20) && !m.HasStaticCANID() {
+			if err := m.UpdateID(acmelib.MessageID(100 + r.below(900))); err == nil {
+				w.count("edited-message-id")
+			}
+		}
+		if r.chance(25) {
+			m.SetPriority(acmelib.MessagePriority(r.below(4)))
+			m.SetCycleTime(r.rangeInt(1, 5000))
+			m.SetSendType(acmelib.MessageSendType(r.below(5)))
+			m.SetDelayTime(r.rangeInt(1, 99))
+			m.SetStartDelayTime(r.rangeInt(1, 99))
+		}
+	}
+	for _, sg := range w.sigs {
+		if r.chance(20) {
+			if err := sg.UpdateName(w.name("sig_renamed")); err == nil {
+				w.count("edited-signal-name")
+			}
+		}
+		if r.chance(20) {
+			sg.SetStartValue(w.float())
+			sg.SetSendType(acmelib.SignalSendType(r.below(8)))
+		}
+	}
+	if r.chance(30) {
+		w.net.UpdateName(w.name("net_renamed"))
+	}
 }
 
 // newSignal creates a signal of a random kind whose size is at most maxBits (nil if impossible).
